@@ -17,7 +17,7 @@ worker() {
   local rc=0
   for P in "$@"; do
     cd $D/repo && git checkout -q -- . && git clean -fdq src && git apply $P || { echo "$(basename $P) APPLY-FAILED"; rc=1; continue; }
-    OUT=$(cd $ROOT && ./bpv all 2>&1)
+    OUT=$(cd $ROOT && ./bpv all --tier ${TIER:-quick} 2>&1)
     BAD=$(echo "$OUT" | grep "^\[C" | grep -v "violations=0" | awk '{print $1}' | tr '\n' ' ')
     if [ -n "$BAD" ] && grep -q "^$(basename $P) " $ROOT/selftest/benign_ext/KNOWN_RESIDUAL.txt 2>/dev/null; then echo "$(basename $P): KNOWN-RESIDUAL false alarm in $BAD (documented in DESIGN.md)";
     elif [ -n "$BAD" ]; then rc=1; echo "$(basename $P): FALSE ALARM in $BAD"; echo "$OUT" | grep -A2 "^VIOLATION" | grep -v "^VIOLATION\|^--" | cut -c1-260 | head -8; else echo "$(basename $P): silent"; fi
